@@ -71,8 +71,41 @@ def indexed_key_sample(ctx, n):
                            " and raised %s" % err if err else "", idx, want), case)
 
 
+def zip_one_sided_sample(ctx, n):
+    """zip in blocking, loop-less use (nobody waits for its backpressure): one input runs far ahead of the others - beyond the default
+    maxsize of 10 as well - and nothing may be dropped or mis-paired: tuple i consists of the i-th element of every input."""
+    import asyncio
+    from streamz import Stream
+    rng = ctx.rng
+    for i in range(n):
+        k = rng.choice([2, 2, 3])
+        maxsize = rng.choice([None, None, 1, 3])          # None: the default
+        ahead = (10 if maxsize is None else maxsize) + rng.choice([1, 2, 5])
+        case = {"zip_one_sided": True, "inputs": k, "maxsize": maxsize, "ahead": ahead, "first": rng.randrange(k)}
+        loop = asyncio.new_event_loop()
+        asyncio.set_event_loop(loop)                       # as in the main thread of a plain program: a current loop that is not running
+        try:
+            srcs = [Stream() for _ in range(k)]
+            z = srcs[0].zip(*srcs[1:]) if maxsize is None else srcs[0].zip(*srcs[1:], maxsize=maxsize)
+            got = z.sink_to_list()
+            order = [case["first"]] + [j for j in range(k) if j != case["first"]]
+            for j in order:
+                for v in range(ahead):
+                    srcs[j].emit(100 * j + v)
+        finally:
+            asyncio.set_event_loop(None)
+            loop.close()
+        want = [tuple(100 * j + v for j in range(k)) for v in range(ahead)]
+        ctx.case(case, nontrivial=True)
+        ctx.count("zip-one-sided:" + ("default-maxsize" if maxsize is None else "maxsize=%d" % maxsize))
+        if got != want:
+            ctx.failure("semantics:zip-one-sided", "zip over %d inputs (maxsize %s), input %d %d elements ahead: delivered %r, index-wise pairing is %r"
+                        % (k, "default" if maxsize is None else maxsize, case["first"], ahead, got[:6], want[:6]), case)
+
+
 def run(ctx):
     ctx.audit(extra_modules=EXTRA)
+    zip_one_sided_sample(ctx, 12 if not ctx.thorough() else 200)
     indexed_key_sample(ctx, 40 if not ctx.thorough() else 800)
     n = 400 if not ctx.thorough() else 12000
     graphcheck.run_family(ctx, n, ASPECTS, CHECKS, SIGS, corpus=CORPUS)
@@ -93,6 +126,10 @@ def run(ctx):
 
 def replay(ctx, data):
     ctx.audit(extra_modules=EXTRA)
+    if data["case"].get("zip_one_sided"):
+        zip_one_sided_sample(ctx, 12)
+        ctx.coverage["rule"] = "replay: zip one-sided sample"
+        return
     if data["case"].get("indexed_key"):
         indexed_key_sample(ctx, 40)
         ctx.coverage["rule"] = "replay: indexed key sample"
